@@ -280,8 +280,54 @@ def _from_geo_rule(ck, P):
              "from_geo can return a box whose extent on one axis depends on the other axis being inverted: %s" % bad[:2], ir.loc(b))
 
 
+def _coord_from_geo_rule(ck, P):
+    """TileCoord2::from_geo: after the rounding guard both tile indices are CLAMPED into [0, 2^z - 1] (a corner on the edge of
+    the world stays in the first / last column; it must not wrap around or overflow the grid)."""
+    fg = [b for b in P.bodies if b["q"].endswith("tile_coords::TileCoord2::from_geo")]
+    if not ck.anchor("R-SELECT", "TileCoord2::from_geo", fg, 1):
+        return
+    b = fg[0]
+    lets = comp.lets_of(b)
+    st = [n for n in ir.walk_nodes(b["body"]) if n.get("k") == "struct" and (n.get("q") or "").endswith("TileCoord2")]
+    if not ck.check(len(st) == 1, "R-SELECT", "coord_from_geo|ctor", "one TileCoord2 literal", "%d TileCoord2 literals" % len(st), ir.loc(b)):
+        return
+    zooms = [h for h, init in lets.items() if ir.contains(init, lambda y: (y.get("k") == "mcall" and y.get("name") in ("powi", "powf", "pow") and ir.const_eval(y["recv"], {}) in (2, None) and
+                                                                 (ir.strip(y["recv"]).get("v") in ("2.0", "2", 2, "2.0f64", "2f64") or ir.const_eval(y["recv"], {}) == 2)) or
+                                                  (y.get("k") == "bin" and y.get("op") == "<<" and ir.const_eval(y["l"], {}) == 1))]
+    bad = []
+    for f in st[0]["fields"]:
+        e = ir.strip(f["e"])
+        while e is not None and e.get("k") == "cast":
+            e = ir.strip(e["e"])
+        ops = []
+        x = e
+        while x is not None and x.get("k") == "mcall":
+            ops.append(x)
+            x = ir.strip(x["recv"])
+        names = [o["name"] for o in ops]
+
+        def is_top(a):
+            a = ir.unparen(ir.strip(a))
+            return a.get("k") == "bin" and a.get("op") == "-" and ir.local_hid(a["l"]) in zooms and str(ir.strip(a["r"]).get("v")) in ("1.0", "1", "1.0f64")
+
+        def is_zero(a):
+            return str(ir.strip(a).get("v")) in ("0.0", "0", "0.0f64", "0f64")
+        ok = False
+        if sorted(names) == ["max", "min"]:
+            mn = [o for o in ops if o["name"] == "min"][0]
+            mx = [o for o in ops if o["name"] == "max"][0]
+            ok = is_top(mn["a"][0]) and is_zero(mx["a"][0])
+        elif names == ["clamp"]:
+            ok = is_zero(ops[0]["a"][0]) and is_top(ops[0]["a"][1])
+        if not ok:
+            bad.append("%s: %s" % (f["name"], names or ir.place_str(e)))
+    ck.check(not bad and bool(zooms), "R-SELECT", "coord_from_geo|clamped", "both tile indices are clamped into [0, 2^z - 1] after the rounding guard",
+             "a tile index is not clamped into [0, 2^z - 1] (%s): a corner on the edge of the world wraps around or leaves the grid" % bad, ir.loc(st[0]))
+
+
 def rules(ck, P):
     _from_geo_rule(ck, P)
+    _coord_from_geo_rule(ck, P)
     comp.levels_rule(ck, P, "R-SELECT", ("set_zoom_min", "set_zoom_max", "intersect_geo_bbox", "intersect", "add_border"))
     conv = [a for q, a in P.adts.items() if q.endswith("::TilesConvertReader")]
     if not ck.anchor("R-D4", "TilesConvertReader", conv, 1):
